@@ -40,8 +40,12 @@ class SizeMonitor(netsim.Monitor):
                 if r.type == "handshake":
                     self._pending_validation = key
                 for f in r.frames or []:
-                    if f["t"] == "PATH_RESPONSE" and f["data"] in self.challenges.get(key, ()):
-                        self._pending_validation = key
+                    if f["t"] == "PATH_RESPONSE":
+                        # RFC 9000 8.2.3: a PATH_RESPONSE received on ANY path validates the path on which
+                        # the matching PATH_CHALLENGE was sent - and only that one
+                        for (en, a), datas in self.challenges.items():
+                            if en == ep.name and f["data"] in datas:
+                                self._pending_validation = (en, a)
 
     def after_pump(self, w, ep, cause, sent, new_events, timer):
         # a delivered Handshake packet / matching PATH_RESPONSE validates the address
